@@ -2,4 +2,7 @@
 
 package all
 
-import _ "verif/harness/internal/props/c11"
+import (
+	_ "verif/harness/internal/props/c11"
+	_ "verif/harness/internal/props/c11/proxy"
+)
